@@ -108,7 +108,7 @@ func implHTTP(line string) string {
 	p := string(unhx(a["path"]))
 	body := unhx(a["body"])
 	return guard(func() string {
-		req := &http.Request{Method: a["method"], URL: &url.URL{Path: p}, Header: http.Header{}, Body: io.NopCloser(bytes.NewReader(body))}
+		req := &http.Request{Method: a["method"], URL: &url.URL{Path: p, RawPath: string(unhx(a["rawpath"]))}, Header: http.Header{}, Body: io.NopCloser(bytes.NewReader(body))}
 		if a["hashdr"] == "1" {
 			req.Header.Set("Authorization", hdr)
 		}
@@ -272,6 +272,26 @@ func runC15(cfg Config) {
 		line := fmt.Sprintf("%s alg=%s auth=%s hashdr=%s hdr=%s method=%s path=%s writable=%d skipverify=%d comp=%d storewr=%d get=%s has=%s storeok=%d iget=%s ivalid=%d body=%s dec=%s",
 			cmd, alg, hx([]byte(auth)), hashdr, hx([]byte(hdr)), method, hx([]byte(p)), rng.Intn(2), rng.Intn(2), b2i(comp), rng.Intn(2),
 			[]string{"ok", "missing", "err"}[rng.Intn(3)], []string{"1", "0", "err"}[rng.Intn(3)], rng.Intn(2), []string{"1", "0", "err"}[rng.Intn(3)], b2i(ierr == nil), hx(body), dec)
+		// the request as it arrives from the network may spell the same path differently: an
+		// encoded form (RawPath) with %2F for "/" and %2e for "."; the handlers must go by the decoded path
+		if rng.Intn(3) == 0 && p != "" {
+			raw := ""
+			for i := 0; i < len(p); i++ {
+				switch {
+				case p[i] == '/' && i > 0 && rng.Intn(2) == 0:
+					raw += "%2F"
+				case p[i] == '.' && rng.Intn(3) == 0:
+					raw += "%2e"
+				case p[i] == '%' || p[i] == ' ' || p[i] == '?' || p[i] == '#' || p[i] < 0x21 || p[i] > 0x7e:
+					raw += fmt.Sprintf("%%%02X", p[i])
+				default:
+					raw += string(p[i])
+				}
+			}
+			if un, err := url.PathUnescape(raw); err == nil && un == p && raw != p {
+				line += " rawpath=" + hx([]byte(raw))
+			}
+		}
 		got := implHTTP(line)
 		rep.Compare(m, line, implHTTP, nil)
 		_, a := parseCase(line)
@@ -324,10 +344,26 @@ func runC15(cfg Config) {
 	var idxBody bytes.Buffer
 	(&desync.Index{Index: desync.FormatIndex{FeatureFlags: desync.CaFormatSHA512256, ChunkSizeMax: 10}}).WriteTo(&idxBody)
 	hostile := []string{"/../sentinel", "/..", "/../../sentinel", "/indexes/../../sentinel", "/./../sentinel", "/sentinel/..", "//../sentinel", "/%2e%2e/sentinel", "/..%2fsentinel"}
+	// the same as request URIs parsed the way net/http does (Path decoded, RawPath kept)
+	rawHostile := []string{"/..%2Fsentinel", "/..%2fsentinel", "/%2e%2e%2Fsentinel", "/indexes%2F..%2F..%2Fsentinel", "/x/..%2F..%2Fsentinel", "/..%2F..%2Fsentinel", "/%2E%2E/sentinel"}
+	type hreq struct{ path, raw string }
+	var hreqs []hreq
 	for _, p := range hostile {
+		hreqs = append(hreqs, hreq{p, ""})
+	}
+	for _, r := range rawHostile {
+		if u, err := url.ParseRequestURI(r); err == nil {
+			hreqs = append(hreqs, hreq{u.Path, u.RawPath})
+		}
+	}
+	for _, hr := range hreqs {
+		p := hr.path
+		if hr.raw != "" {
+			p = hr.raw
+		}
 		for _, method := range []string{"GET", "PUT", "HEAD"} {
 			for _, h := range []http.Handler{ch, ih} {
-				req := &http.Request{Method: method, URL: &url.URL{Path: p}, Header: http.Header{}, Body: io.NopCloser(bytes.NewReader(idxBody.Bytes()))}
+				req := &http.Request{Method: method, URL: &url.URL{Path: hr.path, RawPath: hr.raw}, Header: http.Header{}, Body: io.NopCloser(bytes.NewReader(idxBody.Bytes()))}
 				w := httptest.NewRecorder()
 				guard(func() string { h.ServeHTTP(w, req); return "" })
 				rep.Count("disk "+method+" "+p, true, "disk-confinement")
